@@ -1922,10 +1922,22 @@ class Evaluator:
             return T("fmt", (tm._fz(a0), pos[1] if len(pos) > 1 else None, -1), tm.STR)
         if n == "type":
             t = tm.tyof(a0)
-            if t != tm.ANY and not (isinstance(a0, T) and a0.op == "param"):
+            if t != tm.ANY and (not (isinstance(a0, T) and a0.op == "param") or getattr(self, "typed_params", False)):
                 return T("ext", ("builtins." + {"none": "NoneType"}.get(t, t),))
             return T("typeof", (a0,))
         if n == "isinstance":
+            t = tm.tyof(a0)
+            if t != tm.ANY and len(pos) == 2 and getattr(self, "typed_params", False):
+                # the obligation fixes the argument's type: isinstance against builtin types folds (bool is an int)
+                want = pos[1] if isinstance(pos[1], (tuple, list)) else (pos[1],)
+                names = [w.args[0] for w in want if isinstance(w, T) and w.op == "ext"]
+                if len(names) == len(want) and all(nm.startswith("builtins.") for nm in names):
+                    mine = {"builtins." + {"none": "NoneType"}.get(t, t)}
+                    if t == tm.BOOL:
+                        mine.add("builtins.int")
+                    if t == tm.BYTES and isinstance(a0, bytearray):
+                        mine = {"builtins.bytearray"}
+                    return bool(mine & set(names))
             return T("isinstance", (tm._fz(a0), tm._fz(pos[1])), tm.BOOL)
         if n == "slice" and 1 <= len(pos) <= 3 and all(x is None or (isinstance(x, int) and not isinstance(x, bool)) for x in pos):
             return slice(*pos)
